@@ -33,7 +33,7 @@ type Field struct {
 }
 
 func F(id int, data []byte) Field { return Field{ID: uint16(id), Data: data} }
-func FS(id int, s string) Field    { return Field{ID: uint16(id), Data: []byte(s)} }
+func FS(id int, s string) Field   { return Field{ID: uint16(id), Data: []byte(s)} }
 
 func (f Field) Encode() []byte { return cat(U16(int(f.ID)), U16(len(f.Data)), f.Data) }
 
